@@ -346,6 +346,31 @@ ExpectedEqD(c, p, q) == /\ ExpectedEq(p.val, q.val)
                            \/ /\ "z3" \notin {p.mot, q.mot} /\ ~Displaced(c, "move", p.val)
                            \/ /\ "m1" \notin {p.mot, q.mot} /\ ~Displaced(c, "flat", p.val)
 
+(* ============================ observed dimension: read-only public queries ============================ *)
+(* Queries never change equality: after the read-only public queries of its class were run on x only, or on  *)
+(* x and on an independently built twin y, x == y, y == x, x == its deep copies taken before and after the   *)
+(* queries, the hashes agree, and == still returns a truth value.  (Derived data a query caches on the        *)
+(* instance - cumulative distances, polygons, occupancy sets, cycle start times - is not an attribute value.)  *)
+ShapeQ == {"shapely_object", "contains_point"}
+ObstQ  == {"occupancy_at_time", "state_at_time"}
+SpecialQueries == [
+  Rectangle |-> ShapeQ \cup {"vertices"}, Circle |-> ShapeQ, Polygon |-> ShapeQ \cup {"center"}, ShapeGroup |-> {"contains_point"},
+  TrafficLightCycle |-> {"get_state_at_time_step", "cycle_init_timesteps"},
+  TrafficLight |-> {"get_state_at_time_step"},
+  Lanelet |-> {"distance", "inner_distance", "polygon", "interpolate_position", "orientation_by_position"},
+  LaneletNetwork |-> {"find_lanelet_by_position", "lanelet_polygons", "map_inc_lanelets_to_intersections",
+                      "lanelets_in_proximity", "light_states"},
+  StaticObstacle |-> ObstQ, DynamicObstacle |-> ObstQ, PhantomObstacle |-> ObstQ, EnvironmentObstacle |-> {"occupancy_at_time"},
+  Trajectory |-> {"state_at_time_step", "final_state"},
+  TrajectoryPrediction |-> {"occupancy_set", "occupancy_at_time_step"},
+  SetBasedPrediction |-> {"occupancy_at_time_step"},
+  GoalRegion |-> {"is_reached"}, PlanningProblem |-> {"goal_reached"},
+  Scenario |-> {"occupancies_at_time_step", "obstacle_states_at_time_step", "light_states", "render"} ]
+Heavy == {"render"}                              \* only on the seeds
+Queries(c, depth) == ({"str", "repr", "hash"} \cup (IF c \in DOMAIN SpecialQueries THEN SpecialQueries[c] ELSE {}))
+                     \ (IF depth = 0 THEN {} ELSE Heavy)
+Observers == {"x", "both"}
+
 (* is  A --mutator--> B  an edge of the mutation relation? *)
 IsMutation(c, mk, a, b) ==
   CASE mk = "set"  -> /\ Cardinality(Differing(a, b)) = 1
@@ -375,6 +400,7 @@ TableOK ==
             /\ Cardinality({Canon[t] : t \in Dom(c, g)}) >= 2          \* something to perturb to
             /\ \A t \in Dom(c, g) : Canon[t] \in Dom(c, g)            \* "v1r" only next to "v1"
   /\ \A e \in Either : e[1] \in Classes /\ e[2] \in GroupsOf(e[1]) /\ e[3] \subseteq Dom(e[1], e[2])
+  /\ DOMAIN SpecialQueries \subseteq Classes
   /\ \A r \in RawMut : r[1] \in Classes /\ r[3] \in GroupsOf(r[1]) /\ r[4] \subseteq Dom(r[1], r[3])
   /\ \A e \in NoSetter \cup Content \cup SpatialDefault \cup SetNone : e[1] \in Classes /\ e[2] \in GroupsOf(e[1])
   /\ \A c \in DOMAIN Moved : c \in Classes /\ Moved[c] \subseteq GroupsOf(c)
